@@ -264,6 +264,7 @@ var excludedCrash = map[string]bool{
 	"crash:delete-templated-task":      true,
 	"crash:template-update-with-tasks": true,
 	"crash:template-rename":            true,
+	"crash:template-assignment":        true,
 }
 
 // crashClass names the class of a target request whose transactions are known not to be
